@@ -3,6 +3,7 @@
 #define NV_BASE_H
 #include <stdint.h>
 #include <stddef.h>
+#include <string.h>
 /* exceptions are modelled as an early return with this ghost flag set */
 extern _Bool nv_thrown;
 _Bool nv_thrown;
@@ -22,6 +23,8 @@ static struct nv_opaque nv_opaque_value(void) { struct nv_opaque x; return x; }
 #define NV_F2I64(x) (__CPROVER_assert((x) == (x) && (x) >= -9223372036854775808.0 && (x) < 9223372036854775808.0, "floating-point to int64 conversion is defined (finite, -2^63 <= x < 2^63)"), \
                      (((x) == -9223372036854775808.0) ? INT64_MIN : (int64_t)(x)))
 #define NV_FINITE(x) ((x) == (x) && (x) - (x) == 0.0)
+#define NV_ISNAN(x) ((x) != (x))
+#define NV_ISINF(x) ((x) == (x) && (x) - (x) != 0.0)
 /* same double value (NaN equals NaN): used where a contract says "the stored value is the observed one" */
 #define NV_SAME(a, b) ((a) == (b) || ((a) != (a) && (b) != (b)))
 /* floating-point arithmetic in extracted code: uninterpreted by default (sound for every interpretation) */
